@@ -26,3 +26,4 @@ for c in "$@"; do
   first=$(echo "$out" | grep '^VIOLATION' | head -1)
   echo "$name: check $c: violations=$n $first"
 done
+python3 /verif/translate/gen.py >/dev/null 2>&1   # coq/Gen back to /repo's tree
